@@ -60,11 +60,12 @@ func (c *Case) record(i int, op *Op, obs []string) {
 
 // replayOps re-executes a fixed op list on the real library (used by the shrinker and --replay).
 func replayOps(dir string, ops []*Op, hook func(e *Env, i int, op *Op, obs []string)) *Case {
-	e := &Env{dir: dir}
+	e := &Env{dir: dir, faultCtl: anyFault(ops)}
 	defer e.Close()
 	c := &Case{}
 	for i, op := range ops {
 		cp := *op
+		cp.Fault = "" // set again if the fault fires in this execution
 		obs := e.Apply(&cp)
 		c.Ops = append(c.Ops, &cp)
 		c.record(i, &cp, obs)
@@ -239,4 +240,14 @@ func envInt(k string, d int) int {
 		}
 	}
 	return d
+}
+
+// anyFault: does the op list ask for a store failure (the re-execution then needs the interposer)?
+func anyFault(ops []*Op) bool {
+	for _, op := range ops {
+		if op.FaultAt > 0 {
+			return true
+		}
+	}
+	return false
 }
